@@ -51,6 +51,19 @@ func toError(err error) *Error {
 	return &Error{ename, ecode}
 }
 
+// confine maps a client-supplied path (an attach name, or a rename target
+// starting with '/') to a path inside the exported root: ".." cannot climb
+// above "/", and the result is joined below ufs.Root.
+func (ufs *Ufs) confine(name string) string {
+	return filepath.Join(ufs.Root, filepath.Join("/", name))
+}
+
+// inRoot reports whether the (clean) path p lies inside the exported root.
+func (ufs *Ufs) inRoot(p string) bool {
+	root := filepath.Clean(ufs.Root)
+	return p == root || root == "/" || strings.HasPrefix(p, root+"/")
+}
+
 // IsBlock reports if the file is a block device
 func isBlock(d os.FileInfo) bool {
 	stat := d.Sys().(*syscall.Stat_t)
@@ -279,7 +292,7 @@ func (ufs *Ufs) Attach(req *SrvReq) {
 	// You can think of the ufs.Root as a 'chroot' of a sort.
 	// clients attach are not allowed to go outside the
 	// directory represented by ufs.Root
-	fid.path = filepath.Join(ufs.Root, tc.Aname)
+	fid.path = ufs.confine(tc.Aname)
 
 	req.Fid.Aux = fid
 	err := fid.stat()
@@ -294,7 +307,7 @@ func (ufs *Ufs) Attach(req *SrvReq) {
 
 func (*Ufs) Flush(req *SrvReq) {}
 
-func (*Ufs) Walk(req *SrvReq) {
+func (ufs *Ufs) Walk(req *SrvReq) {
 	fid := req.Fid.Aux.(*ufsFid)
 	tc := req.Tc
 
@@ -313,8 +326,28 @@ func (*Ufs) Walk(req *SrvReq) {
 	path := fid.path
 	i := 0
 	for ; i < len(tc.Wname); i++ {
-		p := path + "/" + tc.Wname[i]
-		st, err := os.Lstat(p)
+		var p string
+		var err error
+		var st os.FileInfo
+		switch name := tc.Wname[i]; {
+		case strings.Contains(name, "/"):
+			// not a name: it would be resolved as a path, possibly
+			// out of the exported tree
+			err = syscall.EINVAL
+		case name == "..":
+			// the parent, except at the root, which is its own parent
+			p = path
+			if filepath.Clean(p) != filepath.Clean(ufs.Root) {
+				p = filepath.Dir(filepath.Clean(p))
+			}
+		default:
+			p = path + "/" + name
+		}
+
+		if err == nil {
+			st, err = os.Lstat(p)
+		}
+
 		if err != nil {
 			if i == 0 {
 				req.RespondError(Enoent)
@@ -356,12 +389,19 @@ func (*Ufs) Open(req *SrvReq) {
 	req.RespondRopen(dir2Qid(fid.st), 0)
 }
 
-func (*Ufs) Create(req *SrvReq) {
+func (ufs *Ufs) Create(req *SrvReq) {
 	fid := req.Fid.Aux.(*ufsFid)
 	tc := req.Tc
 	err := fid.stat()
 	if err != nil {
 		req.RespondError(err)
+		return
+	}
+
+	// the new entry is made in the directory the fid designates: a name
+	// that is a path ("a/b", "../x") or no name at all is refused
+	if tc.Name == "" || tc.Name == "." || tc.Name == ".." || strings.Contains(tc.Name, "/") {
+		req.RespondError(toError(syscall.EINVAL))
 		return
 	}
 
@@ -653,13 +693,20 @@ func (u *Ufs) Wstat(req *SrvReq) {
 		// cwd.
 		var destpath string
 		if dir.Name[0] == '/' {
-			destpath = filepath.Join(u.Root, dir.Name)
+			destpath = u.confine(dir.Name)
 			fmt.Printf("/ results in %s\n", destpath)
 		} else {
 			fiddir, _ := path.Split(fid.path)
 			destpath = filepath.Join(fiddir, dir.Name)
 			fmt.Printf("rel  results in %s\n", destpath)
 		}
+
+		// the target must stay inside the exported tree
+		if !u.inRoot(destpath) || destpath == filepath.Clean(u.Root) {
+			req.RespondError(toError(syscall.EPERM))
+			return
+		}
+
 		err := syscall.Rename(fid.path, destpath)
 		fmt.Printf("rename %s to %s gets %v\n", fid.path, destpath, err)
 		if err != nil {
